@@ -478,7 +478,7 @@ package nsqd
 //@   ensures[get-routes-exactly] forall p string :: {setin(r5FGetRoutes, p)} setin(r5FGetRoutes, p) <==> (old(setin(r5FGetRoutes, p)) || r5FIsGetPath(p))
 //@   ensures[put-routes-exactly] forall p string :: {setin(r5FPutRoutes, p)} setin(r5FPutRoutes, p) <==> (old(setin(r5FPutRoutes, p)) || r5FIsPutPath(p))
 //@   ensures[no-other-method] r5FOtherMethodRoutes == old(r5FOtherMethodRoutes)
-//@   modifies r5FRoutes, r5FServersBuilt
+//@   modifies r5FRoutes, r5FServersBuilt, r5HDecorations
 //   r5FServersBuilt / r5FServerFor / r5FServerTLSEnabled / r5FServerTLSRequired: number of servers built, daemon and TLS flags of the latest
 //@   onreturn r5FServersBuilt := r5FServersBuilt + 1
 //@   onreturn r5FServerFor := nsqd
